@@ -456,16 +456,13 @@ def fan2go_crash(text):
     if not g:
         return None
     frames = [ln.strip() for ln in g.group(1).splitlines() if ln and not ln.startswith('\t')]
+    # the first frame that belongs to fan2go or to the harness decides (frames of the runtime, the standard library and
+    # third-party packages above it were called from there)
     for fr in frames:
-        if fr.startswith('panic(') or fr.startswith('runtime.') or fr.startswith('testing.') or fr.startswith('sync.') \
-                or fr.startswith('bytes.') or fr.startswith('io.') or fr.startswith('os/exec.') or fr.startswith('os.') \
-                or fr.startswith('strings.') or fr.startswith('internal/'):
-            continue
         if 'markusressel/fan2go/verifharness' in fr:
             return None          # the harness itself panicked (must(...)): not an observation of fan2go
         if 'markusressel/fan2go/internal' in fr or 'markusressel/fan2go/cmd' in fr:
             return (m.group(1) + ' in ' + fr.split('(')[0])[:300]
-        return None
     return None
 
 
